@@ -287,3 +287,226 @@ Proof.
 Qed.
 Lemma erfR_0 : erfR 0 = 0.
 Proof. unfold erfR. rewrite RInt_point. unfold zero; simpl. ring. Qed.
+
+(* ====================================================================== Fourier pair, Exponential, d = 1 *)
+(* rho(r) = cor(r / l) = exp(-(r / l));  S(k) = (1/2pi) int_R rho(|r|) e^{ikr} dr = (1/pi) int_0^oo rho(r) cos(k r) dr *)
+Section FourierExp1.
+Variables (l k : R).
+Hypothesis Hl : 0 < l.
+Definition exp_cor (h : R) : R := exp (- h).
+Definition fint (r : R) : R := / PI * (exp_cor (r / l) * cos (k * r)).
+Definition fanti (r : R) : R :=
+  exp (- (r / l)) * (- (1 / l) * cos (k * r) + k * sin (k * r)) / ((1 / l) * (1 / l) + k * k) / PI.
+Lemma den_pos : 0 < (1 / l) * (1 / l) + k * k.
+Proof. assert (0 < 1 / l) by (apply Rdiv_lt_0_compat; lra). nra. Qed.
+Lemma fanti_derive r : is_derive fanti r (fint r).
+Proof.
+  unfold fanti, fint, exp_cor. assert (Hd := den_pos). assert (Hpi := PI_RGT_0).
+  auto_derive; [sidec|]. unfold Rdiv. field. repeat split; try lra. assert (0 <= k * k * (l * l)) by nra. lra.
+Qed.
+Lemma fint_cont r : continuous fint r.
+Proof. apply (ex_derive_continuous fint). unfold fint, exp_cor. auto_derive. sidec. Qed.
+Lemma fanti_lim : is_lim fanti p_infty 0.
+Proof.
+  assert (Hd := den_pos). assert (Hpi := PI_RGT_0). assert (Ha : 0 < 1 / l) by (apply Rdiv_lt_0_compat; lra).
+  set (C := (1 / l + Rabs k) / ((1 / l) * (1 / l) + k * k) / PI).
+  assert (HC : 0 < C).
+  { unfold C. apply Rdiv_lt_0_compat; [|exact Hpi]. apply Rdiv_lt_0_compat; [|exact Hd]. assert (H := Rabs_pos k). lra. }
+  apply lim0_by_bound with (l * C); [apply Rmult_lt_0_compat; assumption|]. intros x Hx.
+  unfold fanti. unfold Rdiv at 1 2. rewrite !Rabs_mult.
+  rewrite (Rabs_pos_eq (/ PI)) by (left; apply Rinv_0_lt_compat; exact Hpi).
+  rewrite (Rabs_pos_eq (/ (1 / l * (1 / l) + k * k))) by (left; apply Rinv_0_lt_compat; exact Hd).
+  rewrite (Rabs_pos_eq (exp _)) by (left; apply exp_pos).
+  assert (Hb : Rabs (- (1 / l) * cos (k * x) + k * sin (k * x)) <= 1 / l + Rabs k).
+  { eapply Rle_trans; [apply Rabs_triang|]. rewrite !Rabs_mult. rewrite Rabs_Ropp, (Rabs_pos_eq (1 / l)) by lra.
+    assert (Hc : Rabs (cos (k * x)) <= 1) by (apply Rabs_le; destruct (COS_bound (k * x)); split; lra).
+    assert (Hs : Rabs (sin (k * x)) <= 1) by (apply Rabs_le; destruct (SIN_bound (k * x)); split; lra).
+    assert (H := Rabs_pos k). nra. }
+  assert (He : exp (- (x / l)) <= l / x).
+  { assert (Hy : 0 < x / l) by (apply Rdiv_lt_0_compat; lra).
+    apply Rle_trans with (1 / (1 + x / l)); [apply exp_sq_bound; lra|].
+    replace (l / x) with (1 / (x / l)) by (field; lra). unfold Rdiv at 1 3. rewrite !Rmult_1_l.
+    apply Rinv_le_contravar; lra. }
+  assert (H0 : 0 < exp (- (x / l))) by apply exp_pos.
+  assert (Hi1 : 0 < / (1 / l * (1 / l) + k * k)) by (apply Rinv_0_lt_compat; exact Hd).
+  assert (Hi2 : 0 < / PI) by (apply Rinv_0_lt_compat; exact Hpi).
+  assert (Hlx : 0 < l / x) by (apply Rdiv_lt_0_compat; lra).
+  assert (Hkl : 0 <= k * k * (l * l)) by nra.
+  replace (l * C / x) with (l / x * (1 / l + Rabs k) * / (1 / l * (1 / l) + k * k) * / PI) by (unfold C; field; repeat split; lra).
+  apply Rmult_le_compat_r; [lra|]. apply Rmult_le_compat_r; [lra|].
+  apply Rmult_le_compat; try lra. apply Rabs_pos.
+Qed.
+Lemma fourier_exp_1d_closed :
+  is_RInt_gen fint (at_point 0) (Rbar_locally p_infty) (l / (PI * (1 + (k * l) * (k * l)))).
+Proof.
+  assert (Hd := den_pos). assert (Hpi := PI_RGT_0).
+  replace (l / (PI * (1 + k * l * (k * l)))) with (0 - fanti 0).
+  - apply RInt_gen_antiderivative; [exact fanti_derive|exact fint_cont|exact fanti_lim].
+  - unfold fanti. replace (- (0 / l)) with 0 by (field; lra). rewrite exp_0, Rmult_0_r, cos_0, sin_0.
+    field. repeat split; try lra. nra.
+Qed.
+End FourierExp1.
+
+(* ====================================================================== the model's functions *)
+Lemma Rpow_1 x : Rpow x 1 = x. Proof. rewrite (Rpow_IZR x 1). simpl. ring. Qed.
+Lemma Rpow_2' x : Rpow x 2 = x * x. Proof. rewrite (Rpow_IZR x 2). simpl. ring. Qed.
+Lemma Rpow_3 x : Rpow x 3 = x * x * x. Proof. rewrite (Rpow_IZR x 3). simpl. ring. Qed.
+Lemma Rpow_three_halves y : 0 < y -> Rpow y (3 / 2) = y * sqrt y.
+Proof.
+  intros Hy. rewrite Rpow_pos by exact Hy. replace (3 / 2) with (1 + / 2) by lra.
+  rewrite Rpower_plus, Rpower_1, Rpower_sqrt by exact Hy. reflexivity.
+Qed.
+
+Definition cdfR ora (m : cls) d ls rs r : R := getv (spectral_rad_cdf (Rops ora) m d ls rs r).
+Definition pdfR ora (m : cls) d ls rs r : R := rad_fac (Rops ora) d r * spectral_density (Rops ora) m d ls rs r.
+Definition gamma_hyps (ora : nat -> list R -> R) : Prop :=
+  ora ORA_GAMMA [1] = 1 /\ ora ORA_GAMMA [3 / 2] = sqrt PI / 2 /\ ora ORA_GAMMA [2] = 1.
+Definition erf_derive_hyp (ora : nat -> list R -> R) : Prop :=
+  forall x, is_derive (fun x => ora ORA_ERF [x]) x (2 / sqrt PI * exp (- (x * x))).
+Definition erf_limit_hyps (ora : nat -> list R -> R) : Prop :=
+  ora ORA_ERF [0] = 0 /\ is_lim (fun x => ora ORA_ERF [x]) p_infty 1.
+
+Section Tie.
+Variable ora : nat -> list R -> R.
+Variables (ls rs : R).
+Hypothesis Hls : 0 < ls.
+Hypothesis Hrs : 0 < rs.
+Let l := ls / rs.
+Let erf := fun x => ora ORA_ERF [x].
+Lemma l_pos' : 0 < l. Proof. apply Rdiv_lt_0_compat; assumption. Qed.
+
+Lemma cdf_exp1 r : cdfR ora Exponential 1 ls rs r = eF1 l r. Proof. reflexivity. Qed.
+Lemma cdf_exp2 r : cdfR ora Exponential 2 ls rs r = eF2 l r. Proof. reflexivity. Qed.
+Lemma cdf_exp3 r : cdfR ora Exponential 3 ls rs r = eF3 l r. Proof. reflexivity. Qed.
+Lemma cdf_gau2 r : cdfR ora Gaussian 2 ls rs r = gF2 l r. Proof. reflexivity. Qed.
+Lemma cdf_gau1 r : cdfR ora Gaussian 1 ls rs r = gF1 l erf r. Proof. reflexivity. Qed.
+Lemma cdf_gau3 r : cdfR ora Gaussian 3 ls rs r = gF3 l erf r. Proof. reflexivity. Qed.
+
+Ltac open_pdf := unfold pdfR, spectral_density, rad_fac, exp_density, gau_density, len_rescaled, sq, zd, pw, sqrtpi;
+  cbv [Z.eqb Pos.eqb]; cbv iota; rsimp; fold l; rewrite ?two_R, ?lit0_R.
+
+Lemma pdf_exp1 r : gamma_hyps ora -> pdfR ora Exponential 1 ls rs r = ep1 l r.
+Proof.
+  intros (G1 & G32 & G2). assert (Hl := l_pos'). assert (Hpi := PI_RGT_0). assert (Hq := q_pos l r).
+  open_pdf. replace ((1 + 1) / 2) with 1 by lra. unfold Gam. rsimp. rewrite G1, !Rpow_1.
+  unfold ep1. field. split; lra.
+Qed.
+Lemma pdf_exp2 r : gamma_hyps ora -> pdfR ora Exponential 2 ls rs r = ep2 l r.
+Proof.
+  intros (G1 & G32 & G2). assert (Hl := l_pos'). assert (Hpi := PI_RGT_0). assert (Hq := q_pos l r).
+  assert (Hs := sq_pos l r). assert (Hsp := spi).
+  open_pdf. replace ((2 + 1) / 2) with (3 / 2) by lra. unfold Gam. rsimp. rewrite G32, Rpow_2'.
+  rewrite Rpow_three_halves by (apply Rmult_lt_0_compat; lra).
+  rewrite sqrt_mult by lra.
+  assert (Hss : sqrt PI * sqrt PI = PI) by (apply sqrt_sqrt; lra).
+  unfold ep2. set (s := sqrt PI) in *. replace PI with (s * s) by exact Hss. field. repeat split; lra.
+Qed.
+Lemma pdf_exp3 r : gamma_hyps ora -> pdfR ora Exponential 3 ls rs r = ep3 l r.
+Proof.
+  intros (G1 & G32 & G2). assert (Hl := l_pos'). assert (Hpi := PI_RGT_0). assert (Hq := q_pos l r).
+  open_pdf. replace ((3 + 1) / 2) with 2 by lra. unfold Gam. rsimp. rewrite G2, Rpow_3, Rpow_2'.
+  unfold ep3. field. split; lra.
+Qed.
+Lemma pdf_gau2 r : pdfR ora Gaussian 2 ls rs r = gp2 l r.
+Proof.
+  assert (Hl := l_pos'). assert (Hpi := PI_RGT_0). assert (Hsp := spi).
+  assert (Hss : sqrt PI * sqrt PI = PI) by (apply sqrt_sqrt; lra).
+  open_pdf. rewrite Rpow_2'. unfold gp2. set (s := sqrt PI) in *. replace PI with (s * s) by exact Hss. field. lra.
+Qed.
+Lemma pdf_gau1 r : pdfR ora Gaussian 1 ls rs r = gp1 l r.
+Proof.
+  assert (Hl := l_pos'). assert (Hsp := spi).
+  open_pdf. rewrite Rpow_1. unfold gp1. field. lra.
+Qed.
+Lemma pdf_gau3 r : pdfR ora Gaussian 3 ls rs r = gp3 l r.
+Proof.
+  assert (Hl := l_pos'). assert (Hpi := PI_RGT_0). assert (Hsp := spi).
+  assert (Hss : sqrt PI * sqrt PI = PI) by (apply sqrt_sqrt; lra).
+  open_pdf. rewrite Rpow_3. unfold gp3. set (s := sqrt PI) in *. replace PI with (s * s) by exact Hss. field. lra.
+Qed.
+End Tie.
+
+(* ====================================================================== statements about the model *)
+Definition elementary (m : cls (T:=R)) (d : Z) : Prop :=
+  (m = Exponential /\ (d = 1 \/ d = 2 \/ d = 3)%Z) \/ (m = Gaussian /\ d = 2%Z).
+Definition via_erf (m : cls (T:=R)) (d : Z) : Prop := m = Gaussian /\ (d = 1 \/ d = 3)%Z.
+
+Section Final.
+Variable ora : nat -> list R -> R.
+Variables (ls rs : R).
+Hypothesis Hls : 0 < ls.
+Hypothesis Hrs : 0 < rs.
+Let l := ls / rs.
+Let erf := fun x => ora ORA_ERF [x].
+
+Theorem cdf_derivative m d : gamma_hyps ora -> elementary m d \/ (via_erf m d /\ erf_derive_hyp ora) ->
+  forall r, is_derive (cdfR ora m d ls rs) r (pdfR ora m d ls rs r).
+Proof.
+  intros HG H r. assert (Hl := l_pos' ls rs Hls Hrs).
+  destruct H as [[[-> [-> | [-> | ->]]] | [-> ->]] | [[-> [-> | ->]] He]].
+  - rewrite pdf_exp1 by assumption. (apply eF1_derive; assumption).
+  - rewrite pdf_exp2 by assumption. (apply eF2_derive; assumption).
+  - rewrite pdf_exp3 by assumption. (apply eF3_derive; assumption).
+  - rewrite pdf_gau2 by assumption. (apply gF2_derive; assumption).
+  - rewrite pdf_gau1 by assumption. (apply gF1_derive; assumption).
+  - rewrite pdf_gau3 by assumption. (apply gF3_derive; assumption).
+Qed.
+
+Theorem cdf_limits m d : elementary m d \/ (via_erf m d /\ erf_limit_hyps ora) ->
+  cdfR ora m d ls rs 0 = 0 /\ is_lim (cdfR ora m d ls rs) p_infty 1.
+Proof.
+  intros H. assert (Hl := l_pos' ls rs Hls Hrs).
+  destruct H as [[[-> [-> | [-> | ->]]] | [-> ->]] | [[-> [-> | ->]] [E0 EL]]].
+  - split; [apply eF1_0|(apply eF1_lim; assumption)].
+  - split; [apply eF2_0|(apply eF2_lim; assumption)].
+  - split; [apply eF3_0|(apply eF3_lim; assumption)].
+  - split; [apply gF2_0|(apply gF2_lim; assumption)].
+  - split; [(apply gF1_0; assumption)|(apply gF1_lim; assumption)].
+  - split; [(apply gF3_0; assumption)|(apply gF3_lim; assumption)].
+Qed.
+
+Theorem pdf_integrates_to_one m d : gamma_hyps ora ->
+  elementary m d \/ (via_erf m d /\ erf_derive_hyp ora /\ erf_limit_hyps ora) ->
+  is_RInt_gen (pdfR ora m d ls rs) (at_point 0) (Rbar_locally p_infty) 1.
+Proof.
+  intros HG H. assert (Hl := l_pos' ls rs Hls Hrs).
+  destruct H as [[[-> [-> | [-> | ->]]] | [-> ->]] | [[-> [-> | ->]] [He [E0 EL]]]].
+  - apply is_RInt_gen_ext with (ep1 (ls / rs)); [apply filter_forall; intros; symmetry; apply pdf_exp1; assumption|(apply ep1_int; assumption)].
+  - apply is_RInt_gen_ext with (ep2 (ls / rs)); [apply filter_forall; intros; symmetry; apply pdf_exp2; assumption|(apply ep2_int; assumption)].
+  - apply is_RInt_gen_ext with (ep3 (ls / rs)); [apply filter_forall; intros; symmetry; apply pdf_exp3; assumption|(apply ep3_int; assumption)].
+  - apply is_RInt_gen_ext with (gp2 (ls / rs)); [apply filter_forall; intros; symmetry; apply pdf_gau2; assumption|(apply gp2_int; assumption)].
+  - apply is_RInt_gen_ext with (gp1 (ls / rs)); [apply filter_forall; intros; symmetry; apply pdf_gau1; assumption|(apply (gp1_int (ls / rs) Hl (fun x => ora ORA_ERF [x])); assumption)].
+  - apply is_RInt_gen_ext with (gp3 (ls / rs)); [apply filter_forall; intros; symmetry; apply pdf_gau3; assumption|(apply (gp3_int (ls / rs) Hl (fun x => ora ORA_ERF [x])); assumption)].
+Qed.
+
+(* the code's 1D Exponential spectral density is the Fourier transform of its correlation exp(-(r/l)) *)
+Theorem fourier_pair_exponential_1d k : ora ORA_GAMMA [1] = 1 ->
+  is_RInt_gen (fun r => / PI * (exp_cor (r / (ls / rs)) * cos (k * r))) (at_point 0) (Rbar_locally p_infty)
+              (spectral_density (Rops ora) Exponential 1 ls rs k).
+Proof.
+  intros G1. assert (Hl := l_pos' ls rs Hls Hrs). assert (Hpi := PI_RGT_0).
+  replace (spectral_density (Rops ora) Exponential 1 ls rs k) with (ls / rs / (PI * (1 + (k * (ls / rs)) * (k * (ls / rs))))).
+  - (apply fourier_exp_1d_closed; assumption).
+  - unfold spectral_density, exp_density, len_rescaled, sq, zd, pw, Gam. rsimp. rewrite ?two_R.
+    replace ((1 + 1) / 2) with 1 by lra. rewrite G1, !Rpow_1.
+    assert (0 < 1 + k * (ls / rs) * (k * (ls / rs))) by nra.
+    assert (0 < rs * rs + k * ls * (k * ls)) by nra. field. repeat split; lra.
+Qed.
+End Final.
+
+(* ---------- the hypotheses are satisfiable *)
+Definition ora_example (c : nat) (xs : list R) : R :=
+  match c, xs with
+  | 0%nat, [x] => if Req_EM_T x (3 / 2) then sqrt PI / 2 else 1
+  | 6%nat, [x] => erfR x
+  | _, _ => 0
+  end.
+Example gamma_hyps_satisfiable : gamma_hyps ora_example.
+Proof.
+  unfold gamma_hyps, ora_example, ORA_GAMMA. repeat split.
+  - destruct (Req_EM_T 1 (3 / 2)); [lra|reflexivity].
+  - destruct (Req_EM_T (3 / 2) (3 / 2)); [reflexivity|contradiction].
+  - destruct (Req_EM_T 2 (3 / 2)); [lra|reflexivity].
+Qed.
+Example erf_derive_hyp_satisfiable : erf_derive_hyp ora_example /\ ora_example ORA_ERF [0] = 0.
+Proof. split; [intros x; apply erfR_derive|apply erfR_0]. Qed.
